@@ -142,6 +142,12 @@ def run_case(case):
     for f in out["files"]:
         if f["units"] != f"seconds since {np.datetime64(int(exp_ref), 's')}":
             bad("time-units", f"{f['name']} time units {f['units']!r} expected reference {world.iso(exp_ref)}")
+        if layout == "dense" and f.get("slab_read_faults"):
+            v, n, j, what = f["slab_read_faults"][0]
+            tail_empty = not pl["rec_living"][-1]
+            bad("dense:whole-array-read" + (":trailing-records-without-particles" if tail_empty else ":highest-pids-dead-at-file-end"),
+                f"{f['name']}: reading {v}[:] in one piece gives {len(f['slab_read_faults'])} elements that are neither the record's value nor fill "
+                f"(first: {v}[{n},{j}] {what}); row-by-row reads are right - the rows/columns were never written and the file's variables are smaller than its dimensions")
         if layout == "sparse" and f["n_instance"] != f["sum_count"]:
             bad("counts-vs-instance-dim", f"{f['name']}: sum(particle_count)={f['sum_count']} instance dimension={f['n_instance']}")
     for i, r in enumerate(recs):
